@@ -393,6 +393,27 @@ pub fn compaction_inputs_l0(
     (a, b)
 }
 
+/// Every proper prefix of the encoding of an edit (WAL number, one added file, one deleted file) is decoded; a prefix that decodes
+/// must be a complete encoding itself, i.e. re-encoding the decoded edit gives back exactly the prefix. Returns (number of prefixes,
+/// number of prefixes that decode although they end inside a field).
+pub fn manifest_torn_prefixes(wal: u64, level: usize, num: u64, size: u64, s: (&[u8], u64), l: (&[u8], u64), del: (usize, u64)) -> (usize, usize) {
+    let mut m = VersionChangeManifest::default();
+    m.wal_file_number = Some(wal);
+    m.remove_file(del.0, del.1);
+    m.add_file(level, num, size, InternalKey::new(s.0.to_vec(), s.1, Operation::Put)..InternalKey::new(l.0.to_vec(), l.1, Operation::Put));
+    let bytes: Vec<u8> = Vec::from(&m);
+    let mut bad = 0;
+    for cut in 0..bytes.len() {
+        if let Ok(p) = VersionChangeManifest::try_from(&bytes[..cut]) {
+            let again: Vec<u8> = Vec::from(&p);
+            if again.as_slice() != &bytes[..cut] {
+                bad += 1;
+            }
+        }
+    }
+    (bytes.len(), bad)
+}
+
 pub fn manifest_roundtrip_nodel(
     wal: u64,
     level: usize,
